@@ -32,7 +32,15 @@ class MeshLine1(MeshSimplex, Mesh):
         from .mesh_line_1 import MeshLine1
 
         if isinstance(other, MeshLine1):
-            return MeshQuad1.init_tensor(self.p[0], other.p[0])
+            m = MeshQuad1.init_tensor(self.p[0], other.p[0])
+            # keep the products of cells only: a line mesh may have gaps
+            mid = m.p[:, m.t].mean(axis=1)
+            keep = np.ones(m.t.shape[1], dtype=bool)
+            for itr, line in enumerate((self, other)):
+                ends = np.sort(line.p[0, line.t], axis=0)
+                keep &= ((ends[0][:, None] < mid[itr])
+                         & (mid[itr] < ends[1][:, None])).any(axis=0)
+            return m if keep.all() else m.restrict(np.nonzero(keep)[0])
 
         return other * self
 
